@@ -8,9 +8,9 @@ for f in sorted(glob.glob(os.path.join(VERIF, "seeded", "*", "meta.json"))):
     runs = m.get("checks_run", {})
     caught = [k for k, v in runs.items() if v.get("caught")]
     missed = [k for k, v in runs.items() if not v.get("caught")]
-    rows.append("| `%s` | %s | %s | %s | %s | %s |" % (m["id"], m["property"], m.get("summary", "").replace("|", "/"), m.get("needs_to_manifest", "").replace("|", "/")[:160],
-                ", ".join(sorted(caught)) or "-", ", ".join(sorted(missed)) or "-"))
-table = "| seeded change | breaks | what it changes | needs to manifest | caught by (quick unless noted) | run but silent |\n|---|---|---|---|---|---|\n" + "\n".join(rows) if rows else "(no seeded change confirmed yet)"
+    rows.append("| `%s` | %s | %s | %s | %s | %s | %s |" % (m["id"], m["property"], m.get("summary", "").replace("|", "/"), m.get("needs_to_manifest", "").replace("|", "/")[:200],
+                ", ".join(sorted(caught)) or "-", ", ".join(sorted(missed)) or "-", ", ".join(m.get("silent_before_strengthening", [])) or "-"))
+table = "| seeded change | breaks | what it changes | needs to manifest | caught by (quick tier) | run but silent | missed at first, caught after strengthening |\n|---|---|---|---|---|---|---|\n" + "\n".join(rows) if rows else "(no seeded change confirmed yet)"
 p = os.path.join(VERIF, "DESIGN.md")
 s = open(p).read()
 s = re.sub(r"<!-- SEEDTABLE -->.*?<!-- /SEEDTABLE -->", "<!-- SEEDTABLE -->\n" + table + "\n<!-- /SEEDTABLE -->", s, flags=re.S)
